@@ -690,7 +690,9 @@ func ruleC15Dir(p *Prog, r *Result) {
 		return walk(v)
 	}
 	a0, a1 := origin(call.Common().Args[0]), origin(call.Common().Args[1])
-	fromOpt := func(s, want, other string) bool { return strings.Contains(s, want+".") && !strings.Contains(s, other+".") }
+	fromOpt := func(s, want, other string) bool {
+		return strings.Contains(s, want+".") && !strings.Contains(s, other+".")
+	}
 	r.Check(fromOpt(a0, "TargetPath", "BasePath") && fromOpt(a1, "BasePath", "TargetPath"), "C15.dir", "cmd/bkld.main / diffDoc(target, base)", p.InstrPos(call),
 		"first operand derives from the TargetPath argument, second from BasePath", fmt.Sprintf("operands derive from %q and %q: target and base are confused", a0, a1))
 	// diffDoc: document-level $match: {}
